@@ -61,6 +61,10 @@ class _Auxiliar(BaseModel):
             # Plain scalars and values that are already typed (dates, networks, models...) are what they denote
             return value
 
+        if isinstance(value, list):
+            # Each element is cast on its own: the elements of a list need not share a type
+            return [cls.cast(v) for v in value]
+
         with suppress(ValidationError):
             value = _Auxiliar(aux=value).aux
 
